@@ -166,3 +166,20 @@ Print Assumptions C11_error_after_items.
 Print Assumptions C11_ctx_expiry_loses_nothing.
 Print Assumptions C11_close_returns.
 Print Assumptions C11_close_variant.
+
+(* ---- the correspondence check's history matcher is certified for this model (Conc/BatchMatcher.v): the
+        quotient it runs on (erased ghosts, relative time, threshold ticks) loses and adds nothing ---- *)
+From Juniper Require Conc.GoLTS Conc.Batch Conc.BatchMatcher.
+
+Theorem C11_matcher_sound : forall mw m calls nctx evs,
+    Batch.accepts_history mw m calls nctx evs = true ->
+    exists ls s, GoLTS.run Batch.qstep (Batch.init mw m calls nctx) ls = Some s /\ BatchMatcher.batch_trace ls = evs.
+Proof. exact BatchMatcher.batch_accepts_sound. Qed.
+
+Theorem C11_matcher_rejections_genuine : forall mw m calls nctx evs,
+    BatchMatcher.batch_converged mw m calls nctx evs = true -> Batch.accepts_history mw m calls nctx evs = false ->
+    forall ls s, GoLTS.run Batch.qstep (Batch.init mw m calls nctx) ls = Some s -> BatchMatcher.batch_trace ls <> evs.
+Proof. exact BatchMatcher.batch_reject_genuine. Qed.
+
+Print Assumptions C11_matcher_sound.
+Print Assumptions C11_matcher_rejections_genuine.
